@@ -16,7 +16,9 @@ Signature field 'check':
   deviation  token / character / initializer deviations of the templates
   pragma     pragma parameters, include structures, namespace arguments
   fault      repository faults (call index x status code / error class)
-  hygiene    the same compiler object compiled the reference unit differently after a failure
+  hygiene    the same compiler object compiled the reference unit differently after a failure, or
+             (retry differential) treated one of the files it had just worked on differently from
+             a brand-new MOFCompiler on a deep copy of the same repository state
 """
 import collections
 import contextlib
@@ -1040,7 +1042,64 @@ def _execute(w, case, seam, text, ns):
                                 'objects equal to those of a fresh compiler',
                                 scrub('after %s: %s' % (results[0][1] or results[0][0], str(d)[:400])),
                                 'hygiene'))
+    # hygiene 2 (retry differential): whatever the failed compile left inside the compiler object
+    # must not change how it treats the files it has just worked on.  Each probe is run by the used
+    # compiler on the handle and by a brand-new MOFCompiler on a deep copy of that handle; outcome
+    # and resulting repository content must be identical.
+    if exc is not None and comp is not None and not isinstance(exc, _Timeout) and \
+            (case['entry'] == 'file' or case.get('files')):
+        probes = []
+        if case['entry'] == 'file':
+            probes += [('file', 'main.mof'), ('include', 'main.mof')]
+        probes += [('include', rel) for rel in sorted(case.get('files') or {})
+                   if rel.endswith('.mof') and isinstance(case['files'][rel], str)][:RETRY_PROBES]
+        sp = [os.path.join(w.root, 'sp')] if case.get('search') else None
+        for kind, rel in probes:
+            h2 = copy.deepcopy(handle)
+            comp2 = MOFCompiler(h2, search_paths=sp, log_func=None)
+            outs = []
+            for c, h in ((comp, handle), (comp2, h2)):
+                if kind == 'file':
+                    e = _guarded(lambda: c.compile_file(os.path.join(w.root, rel), ns))
+                else:
+                    e = _guarded(lambda: c.compile_string('#pragma include ("%s")\n' % rel, ns))
+                if isinstance(e, _Timeout):
+                    outs.append(('timeout',))
+                else:
+                    outs.append(('ok' if e is None else type(e).__name__,
+                                 None if e is None else scrub(str(e)[:300]), full_dump(h)))
+            if outs[0] != outs[1]:
+                field = 'type' if outs[0][0] != outs[1][0] else 'message' if outs[0][1] != outs[1][1] \
+                    else 'repository'
+                results.append(('violation', 'retry-differs:' + field,
+                                '%s:%s->%s' % (kind, outs[1][0], outs[0][0]),
+                                'the used compiler treats %s of %s like a new MOFCompiler on the same '
+                                'repository state: %s' % (kind, rel, str(outs[1][:2])[:300]),
+                                str(outs[0][:2])[:300], 'hygiene'))
+                break
     return results, ncalls
+
+
+RETRY_PROBES = 4
+
+
+def full_dump(handle):
+    """everything the handle (and the stub behind it) holds, as comparable data"""
+    out = []
+    hs = [handle, handle.conn] if isinstance(handle, MOFWBEMConnection) else [handle]
+    for h in hs:
+        for attr in ('qualifiers', 'classes', 'instances', 'quals', 'insts', 'class_names'):
+            d = getattr(h, attr, None)
+            if d is None:
+                continue
+            for ns in sorted(d, key=str):
+                v = d[ns]
+                if isinstance(v, list):
+                    items = [objdump.dump(x) if not isinstance(x, str) else x for x in v]
+                else:
+                    items = [(str(k), objdump.dump(x)) for k, x in v.items()]
+                out.append((type(h).__name__, attr, str(ns), repr(items)))
+    return out
 
 
 def check_case(case, acc, base_text=None):
